@@ -128,7 +128,8 @@ class Flow:
                         continue
                     sub = self.origin(callee, r.value.elts[slot], depth + 1, r.lineno, stack + (callee,))
                 else:
-                    sub = {f"call:{name}[{slot}]"}
+                    # the callee returns a value it holds in a local / gets from another routine: slot k of that
+                    sub = self.slot_origin(callee, r.value, slot, depth + 1, r.lineno, stack + (callee,))
                 # parameters of the callee map back to the caller's arguments
                 for tok in sub:
                     if tok.startswith(f"param:{callee.name}."):
